@@ -68,3 +68,15 @@ PROPS["C03"] = {
     "trusted_base": PROTO_TB,
     "assumptions": ["universe: finite (non-recursive) struct types; field numbers unique within a struct; no nil pointers as slice elements / map values and no non-nil pointer to a nil pointer (protobuf has no representation for them); RawMessage contents are well-formed fields"],
 }
+
+PROPS["C05"] = {
+    "harness": "c05",
+    "models": ["Generated/JsonParseGen.v (translated from json/parse.go, json/string.go, json.Valid)", "Json/Grammar.v (RFC 8259 recogniser, the syntax oracle)"],
+    "rule": "every string of <= 4 symbols over a 24-symbol JSON class alphabet through Valid (346k; <= 3 symbols through all 7 syntax-only consumers), "
+            "strings with the interesting byte at every offset 0..40 around the 9/17-byte hand-over of the quote search, grammar-directed documents with single-token mutations, nesting ladder; "
+            "oracle encoding/json (Valid / the same operation); model: translated parser; oracle model: Json/Grammar.v std_valid",
+    "nontrivial": nontrivial_default,
+    "trusted_base": COMMON_TB + ["Json/Grammar.v is the specification of RFC 8259 + the 10000 nesting limit of encoding/json, tied to encoding/json.Valid by the oracle-model correspondence",
+                                 "the consumers other than Valid (RawMessage encode/decode, unknown-field skip, array surplus, MarshalJSON output, Decoder framing) call the proved recogniser parseValue; their own glue is covered by correspondence with encoding/json only"],
+    "assumptions": ["inputs shorter than 2^62 bytes"],
+}
